@@ -2177,9 +2177,26 @@ func ruleBetweenOrder(p *Prog, r *Result) {
 		fails := len(failing)
 		// ... and only for lower > upper: equal boundaries are a legal (one-key) range
 		strictBad := ""
-		boundIdx := func(v ssa.Value) int {
+		var boundIdx func(v ssa.Value) int
+		boundIdx = func(v ssa.Value) int {
 			idx := -1
 			mentions(v, func(x ssa.Value) bool {
+				// the boundaries may be handed out by a package helper (lexpr, uexpr, err := e.betweenBoundaries())
+				if ex, isEx := x.(*ssa.Extract); isEx && idx < 0 {
+					if c, isC := ex.Tuple.(*ssa.Call); isC {
+						if g := c.Call.StaticCallee(); g != nil && p.InPkg(g) && len(g.Blocks) > 0 {
+							for _, gb := range g.Blocks {
+								ret := retOf(gb)
+								if ret == nil || ex.Index >= len(ret.Results) || isNilConst(ret.Results[ex.Index]) {
+									continue
+								}
+								if k := boundIdx(ret.Results[ex.Index]); k >= 0 && idx < 0 {
+									idx = k
+								}
+							}
+						}
+					}
+				}
 				ia, ok := x.(*ssa.IndexAddr)
 				if !ok {
 					return false
@@ -3792,13 +3809,20 @@ func ruleSubstrEnd(p *Prog, r *Result) {
 				continue
 			}
 			idx := 0
-			allInstrs(body, func(in ssa.Instruction) {
+			// (the cut may sit in a package helper both bodies share)
+			var scope []ssa.Instruction
+			for _, f := range p.staticClosure(body, 2, nil) {
+				allInstrs(f, func(in ssa.Instruction) { scope = append(scope, in) })
+			}
+			seenSl := map[ssa.Instruction]bool{}
+			for _, in := range scope {
 				sl, ok := in.(*ssa.Slice)
-				if !ok || sl.High == nil {
-					return
+				if !ok || sl.High == nil || seenSl[in] {
+					continue
 				}
+				seenSl[in] = true
 				if bt, isB := sl.X.Type().Underlying().(*types.Basic); !isB || bt.Kind() != types.String {
-					return
+					continue
 				}
 				n++
 				idx++
@@ -3824,7 +3848,7 @@ func ruleSubstrEnd(p *Prog, r *Result) {
 				}
 				visit(sl.High, 0)
 				r.add(okv, fmt.Sprintf("substr|%s|slice#%d", which, idx), p.InstrPos(sl), "the end of the cut is min(end, len(value))")
-			})
+			}
 		}
 	}
 	r.floor("slices of the value in the substr bodies", n, 2)
